@@ -47,6 +47,7 @@ fn main() {
     "bus-trace" => cmd_bus::trace(&args[2..]),
     "alu-sweep" => cmd_alu::run(&args[2..]),
     "decode" => cmd_decode::run(&args[2..]),
+    "blocks" => cmd_instr::blocks(&args[2..]),
     "version" => println!("gbv jit={}", cfg!(feature = "jit")),
     _ => { eprintln!("usage: gbv <command> ..."); std::process::exit(2); }
   }
